@@ -302,39 +302,6 @@ theorem H9.cacheAccept_inv {lbs i len backward : Nat} {data : ByteArray}
     · exact hI
   · exact hI
 
-theorem Adv.cacheStep_inv {lbs : Nat} {data : ByteArray} {mask curIx cm maxLength maxBackward : Nat}
-    (hc : curIx < U64) {cache : List Int} (i : Nat) (s s' : Adv.LoopSt)
-    (hI : Adv.Inv data mask cm curIx maxLength maxBackward s)
-    (h : Adv.cacheStep lbs data mask curIx cm maxLength maxBackward cache i s = some s') :
-    Adv.Inv data mask cm curIx maxLength maxBackward s' := by
-  unfold Adv.cacheStep at h
-  cases hci : cache[i]? with
-  | none => rw [hci] at h; cases h
-  | some ci =>
-    rw [hci] at h
-    dsimp only at h
-    split at h
-    · injection h with h; subst h; exact hI
-    · rename_i hcond
-      cases hg : Adv.guard data mask cm (wsub curIx (i32ToUsize ci) &&& mask) s.bestLen with
-      | none => rw [hg] at h; cases h
-      | some g =>
-        rw [hg] at h
-        cases g with
-        | true => dsimp only at h; injection h with h; subst h; exact hI
-        | false =>
-          dsimp only at h
-          cases hf : findMatchLengthWithLimit data (wsub curIx (i32ToUsize ci) &&& mask) cm maxLength with
-          | none => rw [hf] at h; cases h
-          | some len =>
-            rw [hf] at h
-            dsimp only at h
-            injection h with h; subst h
-            obtain ⟨hlen, hag⟩ := findMatchLengthWithLimit_sound hf
-            exact Adv.cacheAccept_inv hI (fun score =>
-              copyOK_of_backward hc (i32ToUsize_lt ci) (Nat.lt_of_not_ge (fun hh => hcond (Or.inl hh)))
-                (Nat.le_of_not_gt (fun hh => hcond (Or.inr hh))) hlen hag s.out score hI.1)
-
 theorem Adv.bucketLoop_inv {lbs : Nat} {data : ByteArray} {mask curIx cm maxLength maxBackward blockMask : Nat}
     (bucket : Nat → Option Nat) : ∀ (cnt i : Nat) (s s' : Adv.LoopSt),
     Adv.Inv data mask cm curIx maxLength maxBackward s →
